@@ -124,6 +124,22 @@ DESC = {
     "C18-6": "combo_check builds the keyword combinations as single-use iterators (only the first positional combination is checked)",
     "C20-7": "two edits: one shared reverse-mode root node per nesting depth + cotangents accumulated on node slots (interleaved backward passes of two threads)",
     "C20-8": "unary_to_nary keeps the current call's extra arguments in a list shared by all calls of one operator object",
+    "C01-9": "tensordot_adjoint_1 wraps the second operand's negative axes with the first operand's rank",
+    "C01-10": "two edits: resolve_order returns None for order='A' on a both-contiguous array + the reshape VJP falls back to the raw order (the cotangent's layout decides)",
+    "C02-9": "pad JVP forwards the padding keywords to the tangent (constant_values / end_values leak into the derivative)",
+    "C02-10": "two edits: resolve_order's 'K' branch prefers 'F' for both-contiguous arrays + the reshape JVP resolves 'A' through 'K' (vectors reshaped with order='A')",
+    "C03-9": "container_untake slice branch adds the slice cotangent into fresh zeros instead of the accumulator",
+    "C03-10": "two edits: ArrayVSpace._add returns _scalar_mul(x, 1) for an all-zero term + _scalar_mul(x, 1) returns x itself (an aliased array becomes a mutable accumulator)",
+    "C05-9": "unbroadcast sums only axes whose cotangent length is > 1 (length-one axis broadcast against a zero-length axis)",
+    "C05-10": "two edits: match_complex asks vspace(target).iscomplex + the ndarray vspace registration calls only complex128 complex (complex64 arguments get real gradients)",
+    "C06-9": "_astype default order 'K' -> 'C' (result loses the operand's memory layout; visible through a later order='K'/'A' read)",
+    "C06-10": "two edits: wrap_if_boxes_inside skips the reshape for ndim <= 1 + select reuses that helper (scalar select returns shape (1,))",
+    "C08-9": "two edits: add_outgrads calls the raw _mut_add + ArrayVSpace._mut_add skips all-zero contributions (a zero-valued cotangent that depends on an outer variable is dropped)",
+    "C08-10": "resolve_order inspects onp.asarray(x) without getval (inside a nested differentiation x is a box: order='A' of a Fortran array resolves to 'C')",
+    "C10-9": "two edits: conj returns real arrays unchanged + the svd VJP divides v in place (the returned vt factor is modified by every backward pass)",
+    "C10-10": "np.gradient VJP keeps map(int, axis) (an iterator) in its closure (second call of the VJP function returns zeros)",
+    "C19-9": "defvjp_argnum builds its rules lazily at the first backward pass and memoises a partially built list when a later rule fails",
+    "C19-10": "two edits: one shared ArrayVSpace instance per (shape, dtype) + ones() memoised on the instance (a caller's in-place update of a returned gradient changes later seeds)",
     "C20-3": "TraceStack.__init__ with a mutable default list shared by all threads",
     "C20-4": "trace() saves/restores the depth through a module-level list shared by all threads",
 }
